@@ -475,12 +475,12 @@ pub fn boundary_len(p: &mut Planner, cfg: &Value, max: usize) -> usize {
 
 /// A swarm-style builder configuration (explicit JSON).
 pub fn plan_cfg(p: &mut Planner, thorough: bool, allow_expensive_keys: bool) -> Value {
-    let partial_exp = if p.chance(3, 4) { p.range(9, 11) } else { p.range(9, if thorough { 16 } else { 14 }) };
+    let partial_exp = if p.chance(3, 4) { p.range(9, 11) } else { p.range(9, if thorough { 20 } else { 14 }) };
     let enc = match p.below(5) {
         0 | 1 => json!({"k":"none"}),
         2 => json!({"k":"v1","sym": if p.chance(1,2) { "aes128" } else { *p.pick(&SYMS) }}),
         _ => json!({"k":"v2","sym": *p.pick(&["aes128","aes192","aes256"]), "aead": *p.pick(&AEADS),
-                    "chunk": if p.chance(3,4) { p.range(0, 4) } else { p.range(0, if thorough { 12 } else { 8 }) }}),
+                    "chunk": if p.chance(3,4) { p.range(0, 4) } else { p.range(0, if thorough { 16 } else { 8 }) }}),
     };
     let encrypted = jstr(&enc, "k") != "none";
     let names = keys::signer_names(!allow_expensive_keys);
